@@ -17,8 +17,10 @@ import (
 	"regexp"
 	"sort"
 	"strings"
+	"sync"
 
 	"golang.org/x/tools/go/packages"
+	"golang.org/x/tools/go/ssa"
 )
 
 //go:embed symtab.json
@@ -31,6 +33,7 @@ type symEntry struct {
 	Name      string `json:"name"`
 	Sig       string `json:"sig"`   // type / signature / constant value
 	Index     int    `json:"index"` // field index, else 0
+	Params    []string `json:"params,omitempty"` // func / method: receiver and parameter names in order
 }
 
 func (s symEntry) key() string { return s.Kind + "|" + s.Pkg + "|" + s.Container + "|" + s.Name }
@@ -44,7 +47,7 @@ func collectSymbols(pkgs map[string]*packages.Package) []symEntry {
 			obj := sc.Lookup(name)
 			switch o := obj.(type) {
 			case *types.Func:
-				out = append(out, symEntry{Kind: "func", Pkg: pk.PkgPath, Name: name, Sig: types.TypeString(o.Type(), qual)})
+				out = append(out, symEntry{Kind: "func", Pkg: pk.PkgPath, Name: name, Sig: types.TypeString(o.Type(), qual), Params: paramNames(o)})
 			case *types.Const:
 				out = append(out, symEntry{Kind: "const", Pkg: pk.PkgPath, Name: name, Sig: types.TypeString(o.Type(), qual) + "=" + o.Val().ExactString()})
 			case *types.Var:
@@ -71,7 +74,7 @@ func collectSymbols(pkgs map[string]*packages.Package) []symEntry {
 					members = append(members, "m:"+m.Name())
 					sig := m.Type().(*types.Signature)
 					ms := types.TypeString(types.NewSignatureType(nil, nil, nil, sig.Params(), sig.Results(), sig.Variadic()), qual)
-					out = append(out, symEntry{Kind: "method", Pkg: pk.PkgPath, Container: name, Name: m.Name(), Sig: ms})
+					out = append(out, symEntry{Kind: "method", Pkg: pk.PkgPath, Container: name, Name: m.Name(), Sig: ms, Params: paramNames(m)})
 				}
 				sort.Strings(members)
 				out = append(out, symEntry{Kind: "type", Pkg: pk.PkgPath, Name: name, Sig: fmt.Sprintf("%T|%s", nt.Underlying(), strings.Join(members, ","))})
@@ -272,4 +275,59 @@ func cmdSymtab(args []string) int {
 	}
 	fmt.Printf("%d symbols written to %s\n", len(syms), out)
 	return 0
+}
+
+func paramNames(f *types.Func) []string {
+	sig := f.Type().(*types.Signature)
+	var out []string
+	if sig.Recv() != nil {
+		out = append(out, sig.Recv().Name())
+	}
+	for i := 0; i < sig.Params().Len(); i++ {
+		out = append(out, sig.Params().At(i).Name())
+	}
+	return out
+}
+
+var (
+	pinnedParamsOnce sync.Once
+	pinnedParams     map[string][]string
+)
+
+// pinParamName: the name a parameter (or receiver) of a package-level function / method carries on the pinned tree.
+func pinParamName(prm *ssa.Parameter) string {
+	fn := prm.Parent()
+	if fn == nil || fn.Parent() != nil {
+		return prm.Name()
+	}
+	pinnedParamsOnce.Do(func() {
+		pinnedParams = map[string][]string{}
+		for _, e := range loadPinnedSymtab() {
+			if e.Kind == "func" || e.Kind == "method" {
+				pinnedParams[e.key()] = e.Params
+			}
+		}
+	})
+	pk := fnTypesPkg(fn)
+	if pk == nil {
+		return prm.Name()
+	}
+	root := fn
+	if o := fn.Origin(); o != nil {
+		root = o
+	}
+	key := "func|" + pk.Path() + "||" + pinName(root)
+	if _, tn := recvTypeName(root); tn != "" {
+		key = "method|" + pk.Path() + "|" + tn + "|" + pinName(root)
+	}
+	names, ok := pinnedParams[key]
+	if !ok || len(names) != len(fn.Params) {
+		return prm.Name()
+	}
+	for i, q := range fn.Params {
+		if q == prm && names[i] != "" && names[i] != "_" {
+			return names[i]
+		}
+	}
+	return prm.Name()
 }
